@@ -53,6 +53,9 @@ def _vm_history(t, out):
     it = iter(t)
     nx = lambda: next(it)
     main, other, pb, _plain, rst = nx(), nx(), nx(), nx(), nx()
+    import re as _re
+    _m = _re.search(r"m([0-9]+)$", _plain)
+    limit = "(eff_limit %s)" % (_m.group(1) if _m else "0")
     mts = [nx() for _ in range(int(nx()))]
     k = nx()
     kor = "None"
@@ -106,8 +109,8 @@ def _vm_history(t, out):
         exp.append("(%d%%nat, %s)" % (0 if tr == "-" else tr.count(";") + 1, r))
     bit = lambda i: "true" if pb[i] == "1" else "false"
     prof = "(mkProfile %s %s %s %s %s)" % tuple(bit(i) for i in range(5))
-    call = ("(run_history (fun c => %s) vm_parse_mt (fun c => %s) %s %s %s %s %s %s %s %s)"
-            % (hfun, sfun, _s(main), _s(other), "[" + "; ".join(_s(m) for m in mts) + "]" if mts else "(@nil str)", prof, kor,
+    call = ("(run_history (fun c => %s) vm_parse_mt (fun c => %s) %s %s %s %s %s %s %s %s %s)"
+            % (hfun, sfun, _s(main), _s(other), "[" + "; ".join(_s(m) for m in mts) + "]" if mts else "(@nil str)", limit, prof, kor,
                "[" + "; ".join("(%s, %s)" % (_s(pool[i][1]), _s(pool[i][0])) for i in others) + "]" if others else "(@nil (str * str))",
                ["RSUnknown", "RSSupported", "RSUnsupported"][int(rst)],
                "[" + "; ".join(ops) + "]"))
